@@ -30,6 +30,7 @@ type BlockCache struct {
 	round         int64
 	hits          int64
 	miss          int64
+	committed     bool // the pre-commit values were moved to the main cache
 }
 
 type Block struct {
@@ -87,6 +88,11 @@ func (pcc *BlockCache) Get(key string) (Value, bool) {
 		// logging.Logger.Debug("block cache get - deleted", zap.String("key", key))
 		logging.Logger.Debug("block state cache - deleted", zap.String("block", pcc.blockHash))
 		return nil, false
+	}
+
+	if pcc.committed {
+		// the block's own writes live in the main cache now
+		return pcc.main.Get(key, pcc.blockHash)
 	}
 
 	return pcc.main.Get(key, pcc.prevBlockHash)
